@@ -17,6 +17,9 @@ type Env struct {
 	MaxAbs float64         // largest finite magnitude of any node
 	MinAbs float64         // smallest non-zero magnitude of any node
 	Nodes  int
+	// Overflow: some operation produced an infinity from finite operands
+	// (overflow or a pole); the value of the enclosing term is then not trusted.
+	Overflow bool
 }
 
 func NewEnv(x []float64, u float64, side int) *Env {
@@ -122,8 +125,22 @@ func (env *Env) Eval(t *Term) Res {
 	return r
 }
 
-func (env *Env) evalUnary(t *Term) Res {
+func isFin(x float64) bool { return !math.IsNaN(x) && !math.IsInf(x, 0) }
+
+func (env *Env) evalUnary(t *Term) (res Res) {
 	u := env.U
+	opsFinite := true
+	see := func(r Res) Res {
+		if !isFin(r.V) {
+			opsFinite = false
+		}
+		return r
+	}
+	defer func() {
+		if math.IsInf(res.V, 0) && opsFinite {
+			env.Overflow = true
+		}
+	}()
 	// numerically careful evaluation of two composite shapes (same term, better
 	// conditioned arithmetic): log(1 + e) and log(1 - e)
 	if t.Fn == "log" && t.A.Tag == "b" {
@@ -133,25 +150,25 @@ func (env *Env) evalUnary(t *Term) Res {
 			if isOneConst(in.B) {
 				e = in.A
 			}
-			a := env.Eval(e)
+			a := see(env.Eval(e))
 			v := math.Log1p(a.V)
 			return Res{v, shift(math.Log1p, a.V, a.E, v) + 2*u*math.Abs(v)}
 		}
 		if in.Fn == "sub" && isOneConst(in.A) {
 			if in.B.Tag == "u" && in.B.Fn == "erf" {
 				// log(1 - erf(z)) = log(erfc(z))
-				a := env.Eval(in.B.A)
+				a := see(env.Eval(in.B.A))
 				f := func(z float64) float64 { return math.Log(math.Erfc(z)) }
 				v := f(a.V)
 				return Res{v, shift(f, a.V, a.E, v) + 4*u*math.Max(math.Abs(v), 1)}
 			}
-			a := env.Eval(in.B)
+			a := see(env.Eval(in.B))
 			f := func(z float64) float64 { return math.Log1p(-z) }
 			v := f(a.V)
 			return Res{v, shift(f, a.V, a.E, v) + 2*u*math.Abs(v)}
 		}
 	}
-	a := env.Eval(t.A)
+	a := see(env.Eval(t.A))
 	if math.IsNaN(a.V) {
 		return Res{math.NaN(), 0}
 	}
@@ -212,16 +229,28 @@ func (env *Env) evalUnary(t *Term) Res {
 	return Res{v, shift(f, a.V, a.E, v) + c*u*math.Max(math.Abs(v), mag)}
 }
 
-func (env *Env) evalBinary(t *Term) Res {
+func (env *Env) evalBinary(t *Term) (res Res) {
 	u := env.U
+	opsFinite := true
+	see := func(r Res) Res {
+		if !isFin(r.V) {
+			opsFinite = false
+		}
+		return r
+	}
+	defer func() {
+		if math.IsInf(res.V, 0) && opsFinite {
+			env.Overflow = true
+		}
+	}()
 	// 1 - erf(z) = erfc(z)
 	if t.Fn == "sub" && isOneConst(t.A) && t.B.Tag == "u" && t.B.Fn == "erf" {
-		a := env.Eval(t.B.A)
+		a := see(env.Eval(t.B.A))
 		v := math.Erfc(a.V)
 		return Res{v, shift(math.Erfc, a.V, a.E, v) + 4*u*math.Abs(v)}
 	}
-	a := env.Eval(t.A)
-	b := env.Eval(t.B)
+	a := see(env.Eval(t.A))
+	b := see(env.Eval(t.B))
 	if math.IsNaN(a.V) || math.IsNaN(b.V) {
 		return Res{math.NaN(), 0}
 	}
